@@ -3,6 +3,7 @@ package gosym
 import (
 	"fmt"
 	"os"
+	"strings"
 	"golang.org/x/tools/go/ssa"
 	"verif/engine/smt"
 )
@@ -30,7 +31,7 @@ type mergeAbort struct{ why string }
 const (
 	trailMerged   = 2
 	trailNoMerge  = 3
-	maxRegionSize = 24
+	maxRegionSize = 48
 )
 
 func (ex *Exec) guarded() bool { return len(ex.guards) > 0 }
@@ -46,7 +47,7 @@ func (ex *Exec) noGuard(why string) {
 func (ex *Exec) guardFor(c *Cell) *smt.Term {
 	var g *smt.Term
 	for _, lv := range ex.guards {
-		if c.id <= lv.cellStart {
+		if c.age <= lv.cellStart {
 			if g == nil {
 				g = lv.cond
 			} else {
@@ -138,44 +139,83 @@ func (ex *Exec) postDominators(fn *ssa.Function) *pdomInfo {
 	return info
 }
 
-// mergeJoin returns the join block of the If ending b, or nil when the region is not eligible.
+// mergeJoin returns the join block of the If ending b: the nearest block (breadth-first from b)
+// reachable from both successors without passing through b. Arms that leave the function or loop
+// back to b at run time abort the attempt, so blocks ending in return/panic inside the region do
+// not disqualify it (error exits inside loop bodies are common).
 func (ex *Exec) mergeJoin(fr *frame, b *ssa.BasicBlock) *ssa.BasicBlock {
 	if ex.cfg.NoMerge || ex.cfg.Inputs != nil {
 		return nil
 	}
-	j := ex.postDominators(fr.fn).ipdom[b]
+	if noMergeFn != "" && strings.Contains(fr.fn.String(), noMergeFn) {
+		return nil
+	}
+	if j, ok := ex.joinOf[b]; ok {
+		return j
+	}
+	var j *ssa.BasicBlock
+	defer func() { ex.joinOf[b] = j }()
+	if len(b.Succs) != 2 {
+		return nil
+	}
+	reach := func(start *ssa.BasicBlock) map[*ssa.BasicBlock]bool {
+		seen := map[*ssa.BasicBlock]bool{}
+		if start == b {
+			return seen
+		}
+		seen[start] = true
+		stack := []*ssa.BasicBlock{start}
+		for len(stack) > 0 {
+			x := stack[len(stack)-1]
+			stack = stack[:len(stack)-1]
+			for _, s := range x.Succs {
+				if s != b && !seen[s] {
+					seen[s] = true
+					stack = append(stack, s)
+				}
+			}
+		}
+		return seen
+	}
+	rT, rF := reach(b.Succs[0]), reach(b.Succs[1])
+	// breadth-first from b
+	dist := map[*ssa.BasicBlock]int{b: 0}
+	queue := []*ssa.BasicBlock{b}
+	for len(queue) > 0 && j == nil {
+		x := queue[0]
+		queue = queue[1:]
+		for _, s := range x.Succs {
+			if _, ok := dist[s]; ok {
+				continue
+			}
+			dist[s] = dist[x] + 1
+			if rT[s] && rF[s] {
+				j = s
+				break
+			}
+			queue = append(queue, s)
+		}
+	}
 	if j == nil {
 		return nil
 	}
-	key := b
-	if r, ok := ex.regionOK[key]; ok {
-		if !r {
-			return nil
-		}
-		return j
-	}
-	// region size and shape: no back edge into b, bounded size
-	seen := map[*ssa.BasicBlock]bool{j: true}
-	var stack []*ssa.BasicBlock
+	// bounded region: blocks reachable from the arms before the join
+	size := 0
+	seen := map[*ssa.BasicBlock]bool{j: true, b: true}
+	stack := []*ssa.BasicBlock{}
 	for _, s := range b.Succs {
 		if !seen[s] {
 			seen[s] = true
 			stack = append(stack, s)
 		}
 	}
-	ok := true
-	size := 0
-	for len(stack) > 0 && ok {
+	for len(stack) > 0 {
 		x := stack[len(stack)-1]
 		stack = stack[:len(stack)-1]
 		size++
-		if size > maxRegionSize || x == b {
-			ok = false
-			break
-		}
-		if len(x.Succs) == 0 {
-			ok = false
-			break
+		if size > maxRegionSize {
+			j = nil
+			return nil
 		}
 		for _, s := range x.Succs {
 			if !seen[s] {
@@ -183,10 +223,6 @@ func (ex *Exec) mergeJoin(fr *frame, b *ssa.BasicBlock) *ssa.BasicBlock {
 				stack = append(stack, s)
 			}
 		}
-	}
-	ex.regionOK[key] = ok
-	if !ok {
-		return nil
 	}
 	return j
 }
@@ -215,7 +251,11 @@ func (ex *Exec) tryMerge(fr *frame, b *ssa.BasicBlock, c *smt.Term, j *ssa.Basic
 			ex.pos++
 			return false
 		}
-		if !ex.bothFeasible(c) {
+		// No feasibility queries here: executing an infeasible arm under its guard is harmless
+		// (its effects are selected by a false condition) and a symbolic two-sided branch or a
+		// panic inside an arm aborts the attempt anyway. Only a syntactically decided condition
+		// is left to Branch.
+		if ex.pcKnows(c) != 0 {
 			return false
 		}
 	}
@@ -230,11 +270,10 @@ func (ex *Exec) tryMerge(fr *frame, b *ssa.BasicBlock, c *smt.Term, j *ssa.Basic
 	defersMark := len(fr.defers)
 	panicsMark := len(ex.panics)
 	savedEval := ex.eval
-	visits := map[int]int{}
-	for k, v := range fr.visits {
-		visits[k] = v
-	}
+	visits := append([]int32(nil), fr.visits...)
+	headsMark := len(fr.regionHeads)
 	fail := func(why string) {
+		fr.regionHeads = fr.regionHeads[:headsMark]
 		// roll back
 		for i := len(ex.mlog) - 1; i >= logMark; i-- {
 			ex.mlog[i].c.V = ex.mlog[i].v
@@ -282,7 +321,9 @@ func (ex *Exec) tryMerge(fr *frame, b *ssa.BasicBlock, c *smt.Term, j *ssa.Basic
 		if start == j {
 			from = b
 		} else {
+			fr.regionHeads = append(fr.regionHeads, b)
 			_, from = ex.runBlocks(fr, start, b, j)
+			fr.regionHeads = fr.regionHeads[:len(fr.regionHeads)-1]
 			if from == nil {
 				panic(&mergeAbort{"arm left the function"})
 			}
@@ -481,3 +522,5 @@ func (ex *Exec) truncPC(mark int) {
 		}
 	}
 }
+
+var noMergeFn = os.Getenv("VERIF_NOMERGE_FN")
